@@ -1,18 +1,268 @@
-//! C14 — placeholder, replaced below.
+//! C14 — `--take` stops reading: jawk terminates on unbounded input when it can.
+
 use super::{Budget, Property, ShrinkCaps};
 use crate::case::*;
 use crate::common::*;
+use crate::gen::*;
 use crate::rng::Rng;
+use crate::run::*;
+use crate::world::*;
 
 pub struct C14;
 
+const SLACK: usize = 128 * 1024;
+const BUDGET_EXTRA: usize = 256 * 1024;
+
+const TAILS: &[&str] = &[
+    "{\"id\":@@,\"s\":\"a@@\",\"n\":@@,\"g\":\"a\",\"h\":@@,\"arr\":[@@,1,\"x\"],\"obj\":{\"a\":@@,\"b\":1},\"t\":true}\n",
+    "{\"id\": @@, \"s\": \"ab\", \"n\": 1.5, \"g\": \"a\", \"arr\": [[@@], {\"k\": @@}], \"obj\": {\"a\": \"v@@\"}}\r\n",
+    "[@@, 1, \"a@@\"]\n",
+    "@@\n",
+    "\"s@@\" ",
+    "[@@]{\"id\":@@,\"arr\":[@@]}",
+];
+
+fn strip_limits(opts: &mut Vec<Vec<String>>) {
+    opts.retain(|o| !(o[0].starts_with("--take") || o[0].starts_with("--skip") || o[0].starts_with("--limit")));
+}
+
 impl Property for C14 {
-    fn id(&self) -> &'static str { "C14" }
-    fn level(&self) -> &'static str { "exploration" }
-    fn rule(&self) -> &'static str { "" }
-    fn assumptions(&self) -> Vec<String> { vec![] }
-    fn shrink_caps(&self) -> ShrinkCaps { ShrinkCaps { drop_pieces: true, simplify_records: false, shrink_raw: true, drop_opts: true } }
-    fn budget(&self, _tier: Tier) -> Budget { Budget { seconds: 5, max_cases: 10 } }
-    fn generate(&self, _rng: &mut Rng, _tier: Tier) -> Case { Case::new("C14", "todo") }
-    fn check(&self, _case: &Case, _ctx: &mut Ctx) -> Option<Violation> { None }
+    fn id(&self) -> &'static str {
+        "C14"
+    }
+    fn level(&self) -> &'static str {
+        "exploration"
+    }
+    fn rule(&self) -> &'static str {
+        "A scenario = streaming pipeline (any of --set, --split-by, --filter, --select, --unique, --only-objects-and-arrays, any output style) with --take T in 0..5 and --skip S in 0..3, a finite generated prefix (garbage allowed) followed by an endless tail of records produced by the stub on demand (each tail record distinct), delivered raw (1-byte requests) or through a harness BufReader with seeded chunk limits and EINTR. The tail is verified to keep producing rows for this pipeline (unlimited pipeline prints strictly more on 2M than on M tail records) and the limiter to be saturated on M records; otherwise the scenario is skipped as invalid. Reference = the same limited pipeline on the finite stream prefix+M records: d = input bytes consumed when its last stdout byte was written. The endless run must return (no simulator abort at d+256 KiB), with the same result kind and stdout, having pulled at most d+128 KiB through the stdin seam. evaluations = jawk executions; non-trivial = the endless run was executed against a saturated limiter; distinct = distinct abstract traces."
+    }
+    fn assumptions(&self) -> Vec<String> {
+        vec![
+            "consumption is counted at jawk's side of the stdin seam, so read-ahead of a harness-owned BufReader is not charged to jawk".into(),
+            "a bounded number of bytes is read as: at most 128 KiB past the byte at which the fault-free finite run wrote its last row".into(),
+            "file arguments: only the multi-file stop (C17.files-concat with --take) is covered in-process; a FIFO as file argument is not simulated".into(),
+        ]
+    }
+    fn shrink_caps(&self) -> ShrinkCaps {
+        ShrinkCaps {
+            drop_pieces: true,
+            simplify_records: true,
+            shrink_raw: false,
+            drop_opts: true,
+        }
+    }
+    fn budget(&self, tier: Tier) -> Budget {
+        match tier {
+            Tier::Quick => Budget {
+                seconds: 25,
+                max_cases: 12_000,
+            },
+            Tier::Thorough => Budget {
+                seconds: 600,
+                max_cases: 1_000_000,
+            },
+        }
+    }
+
+    fn generate(&self, rng: &mut Rng, _tier: Tier) -> Case {
+        let mut case = Case::new("C14", "endless");
+        let w = StreamWish {
+            min_records: 0,
+            max_records: 6,
+            noise_eighths: if rng.chance(1, 3) { 2 } else { 0 },
+            allow_touch: true,
+            spell_level: 1,
+            allow_big: false,
+            schema_only: false,
+        };
+        case.pieces = gen_stream(rng, &w);
+        // the prefix must end in a separator so that the tail starts a fresh token
+        case.pieces.push(Piece::gap(vec![b'\n']));
+        let mut wish = PipeWish::any();
+        wish.max_class = Class::Streaming;
+        wish.allow_corpus = false;
+        let mut pipe = gen_pipe(rng, &wish);
+        strip_limits(&mut pipe.opts);
+        let t = rng.below(6);
+        pipe.opts.push(vec![format!("--take={t}")]);
+        if rng.chance(1, 2) {
+            pipe.opts.push(vec![format!("--skip={}", rng.below(4))]);
+        }
+        if rng.chance(1, 4) {
+            pipe.opts.push(policy_opt(*rng.pick(&[Policy::Stderr, Policy::Stdout, Policy::Panic])));
+        }
+        case.opts = pipe.opts;
+        case.endless = Some(Endless {
+            template: if rng.chance(2, 3) {
+                TAILS[0].to_string()
+            } else {
+                (*rng.pick(TAILS)).to_string()
+            },
+            start: rng.below(1000) as u64,
+        });
+        case.delivery = gen_delivery(rng, case.stream().len());
+        case.delivery.whole = false;
+        case
+    }
+
+    fn check(&self, case: &Case, ctx: &mut Ctx) -> Option<Violation> {
+        let Some(endless) = &case.endless else {
+            ctx.stats.invalid = true;
+            return None;
+        };
+        if classify(&case.opts) == Class::Buffering || !endless.template.contains("@@") {
+            ctx.stats.invalid = true;
+            return None;
+        }
+        let take: Option<u64> = case.opts.iter().find_map(|o| {
+            o[0].strip_prefix("--take=").and_then(|v| v.parse().ok())
+        });
+        let skip: u64 = case
+            .opts
+            .iter()
+            .find_map(|o| o[0].strip_prefix("--skip=").and_then(|v| v.parse().ok()))
+            .unwrap_or(0);
+        let Some(take) = take else {
+            ctx.stats.invalid = true;
+            return None;
+        };
+        let prefix = case.stream();
+        let m = (2 * (skip + take) + 6) as usize;
+        let finite = |n: usize| {
+            let mut v = prefix.clone();
+            for k in 0..n {
+                v.extend_from_slice(&endless.record(k as u64));
+            }
+            v
+        };
+        let in_m = finite(m);
+        let in_2m = finite(2 * m);
+        // 1. the tail keeps producing rows for the unlimited pipeline
+        let mut unlimited = case.clone();
+        strip_limits(&mut unlimited.opts);
+        let u1 = ctx.exec(ref_spec(&unlimited, &in_m));
+        let u2 = ctx.exec(ref_spec(&unlimited, &in_2m));
+        if matches!(u1.outcome, Outcome::Panic(..) | Outcome::Clap(_)) {
+            ctx.stats.invalid = true;
+            ctx.jawk_panic = None;
+            return None;
+        }
+        if u1.outcome.class() == "err" {
+            // e.g. --on-error=panic on a noisy prefix, or a configuration error: the run ends
+            // there; still compare endless with finite below
+        } else if u2.obs.stdout.len() <= u1.obs.stdout.len() {
+            ctx.stats.invalid = true;
+            ctx.stats.probe("skipped: tail produces no rows for this pipeline");
+            return None;
+        }
+        // 2. the limited pipeline on M and 2M records: saturated limiter
+        let l1 = ctx.exec(ref_spec(case, &in_m));
+        let l2 = ctx.exec(ref_spec(case, &in_2m));
+        if l1.obs.stdout != l2.obs.stdout || l1.outcome.class() != l2.outcome.class() {
+            ctx.stats.invalid = true;
+            ctx.stats.probe("skipped: limiter not saturated on M records");
+            return None;
+        }
+        // d = input consumed when the last stdout byte was written
+        let d = if take == 0 && l1.outcome.is_ok() {
+            let mut one = case.clone();
+            for o in one.opts.iter_mut() {
+                if o[0].starts_with("--take=") {
+                    o[0] = "--take=1".into();
+                }
+            }
+            let r = ctx.exec(ref_spec(&one, &in_m));
+            let r2 = ctx.exec(ref_spec(&one, &in_2m));
+            if r.obs.stdout != r2.obs.stdout || r.obs.stdout.is_empty() {
+                ctx.stats.invalid = true;
+                return None;
+            }
+            consumed_when_out_reached(&r.obs.events, r.obs.stdout.len()).unwrap_or(0)
+        } else {
+            consumed_when_out_reached(&l1.obs.events, l1.obs.stdout.len()).unwrap_or(prefix.len())
+        };
+        // 3. the endless world
+        let mut spec = case_spec(case, &prefix);
+        spec.byte_budget = prefix.len().max(d) + BUDGET_EXTRA;
+        spec.max_events = 2_000_000;
+        let r = ctx.exec(spec);
+        ctx.stats.nontrivial = true;
+        ctx.stats.fault("endless-input", 1);
+        if case.delivery.bufcap.is_some() {
+            ctx.stats.probe("endless input through harness BufReader");
+        }
+        if skip > 0 {
+            ctx.stats.probe("with --skip");
+        }
+        if take == 0 {
+            ctx.stats.probe("--take=0");
+        }
+        if has_opt(&case.opts, "--split-by") || has_opt(&case.opts, "-b") {
+            ctx.stats.probe("pipeline has --split-by");
+        }
+        if has_opt(&case.opts, "--select") || has_opt(&case.opts, "--choose") || has_opt(&case.opts, "-c") {
+            ctx.stats.probe("pipeline has --select");
+        }
+        if has_opt(&case.opts, "--filter") {
+            ctx.stats.probe("pipeline has --filter");
+        }
+        if has_opt(&case.opts, "--unique") {
+            ctx.stats.probe("pipeline has --unique");
+        }
+        if has_opt(&case.opts, "--set") {
+            ctx.stats.probe("pipeline has --set");
+        }
+        if let Outcome::Abort(why) = &r.outcome {
+            return viol(
+                "C14.terminates",
+                format!(
+                    "jawk keeps reading an endless input although --take={take} --skip={skip} was satisfied after {d} bytes: {why} (consumed {} bytes)",
+                    r.obs.consumed
+                ),
+            );
+        }
+        if matches!(r.outcome, Outcome::Panic(..)) {
+            return None;
+        }
+        if r.outcome.class() != l1.outcome.class() {
+            return viol(
+                "C14.terminates",
+                format!(
+                    "endless run returned {} but the finite reference returned {}",
+                    r.outcome.describe(),
+                    l1.outcome.describe()
+                ),
+            );
+        }
+        if r.outcome.is_ok() {
+            let over = r.obs.consumed.saturating_sub(d);
+            ctx.stats.probe(match over {
+                0 => "overshoot past the last row's byte: 0",
+                1 => "overshoot past the last row's byte: 1",
+                2..=64 => "overshoot past the last row's byte: 2..64",
+                65..=8192 => "overshoot past the last row's byte: 65..8192",
+                _ => "overshoot past the last row's byte: > 8192",
+            });
+            if r.obs.consumed > d + SLACK {
+                return viol(
+                    "C14.bounded",
+                    format!(
+                        "jawk consumed {} bytes although the last row was complete after {d} bytes (allowance {SLACK})",
+                        r.obs.consumed
+                    ),
+                );
+            }
+        }
+        if r.obs.stdout != l1.obs.stdout {
+            return viol(
+                "C14.rows",
+                format!(
+                    "rows emitted before the early stop differ from the finite run: {} vs {}",
+                    show(&r.obs.stdout),
+                    show(&l1.obs.stdout)
+                ),
+            );
+        }
+        None
+    }
 }
